@@ -230,6 +230,9 @@ func extractF5(repo string, o *out) {
 	same := false
 	conflicts := ""
 	goyacc := filepath.Join(filepath.Dir(os.Args[0]), "goyacc")
+	if abs, e := filepath.Abs(goyacc); e == nil {
+		goyacc = abs // the command runs in a scratch directory
+	}
 	if tmp, e := os.MkdirTemp("", "verif-goyacc"); e != nil {
 		fail(e.Error())
 	} else {
